@@ -79,6 +79,8 @@ pub enum Step {
     Despawn { slot: u8 },
     MarkerOff { slot: u8 },
     MarkerOn { slot: u8 },
+    /// `insert(Replicated)` on an entity that already carries the marker (e.g. as part of a bundle).
+    MarkerReinsert { slot: u8 },
     /// Insert (or overwrite) a data component; `extra` = payload length for `Big`.
     Insert { slot: u8, kind: Kind, extra: u16 },
     Remove { slot: u8, kind: Kind },
@@ -145,6 +147,7 @@ impl Step {
             Step::Despawn { .. } => "despawn",
             Step::MarkerOff { .. } => "marker_off",
             Step::MarkerOn { .. } => "marker_on",
+            Step::MarkerReinsert { .. } => "marker_reinsert",
             Step::Insert { .. } => "insert",
             Step::Remove { .. } => "remove",
             Step::Mutate { .. } => "mutate",
